@@ -86,6 +86,17 @@ def lex(text, comments=True):
     return out
 
 
+def lex_spans(text):
+    """Like lex() without comments, but returns (tok, cls, start, end)."""
+    out = []
+    pos = 0
+    for tok, cls in lex(text, comments=False):
+        i = text.index(tok, pos)
+        out.append((tok, cls, i, i + len(tok)))
+        pos = i + len(tok)
+    return out
+
+
 def squash(text):
     """Remove blanks outside character literals and drop a trailing comment.
     Returns (string, mask) where mask[i] is True for characters inside a
